@@ -22,7 +22,20 @@ def is_node(x) -> bool:
         return True
     if any(c.__name__ == "HTML" for c in type(x).__mro__):
         return True
-    return callable(getattr(x, "tagify", None)) or callable(getattr(x, "_repr_html_", None))
+    return _has_member(x, "tagify") or _has_member(x, "_repr_html_")
+
+
+def _has_member(x, name) -> bool:
+    """The object itself (its instance dict or its classes) defines `name`, and not as None: what an object answers only
+    dynamically through __getattr__ does not make it a tagifiable / self-rendering object, nor does `name = None` (the
+    convention for "no rich representation")."""
+    import inspect
+
+    try:
+        v = inspect.getattr_static(x, name)
+    except AttributeError:
+        return False
+    return v is not None
 
 
 def flatten(args):
